@@ -84,6 +84,9 @@ class HEvent:
         self.wait_seq += 1
         h.waits.append((self.label, timeout))
         h.log.append(('wait', self.label, timeout))
+        hook = getattr(h, 'wait_enter_hook', None)
+        if hook is not None:
+            hook(self, timeout)
         for _ in range(10000):
             h.pump()
             if self._flag:
